@@ -2,6 +2,7 @@ import SqlgrepModel.Drivers.C16
 import SqlgrepModel.Drivers.Eval
 import SqlgrepModel.Drivers.Run
 import SqlgrepModel.Drivers.Reader
+import SqlgrepModel.Drivers.Print
 /- Line protocol driver: `<kind> <payload…>` per line in, one answer line out. -/
 open Sqlgrep
 
@@ -17,6 +18,7 @@ def dispatch (line : String) : String :=
     | "lines" => Drivers.Reader.handleLines true args
     | "linecount" => Drivers.Reader.handleLines false args
     | "joinlines" => Drivers.Reader.handleJoin args
+    | "print" => Drivers.Print.handle args
     | _ => "unknown-kind"
   | _ => "bad-line"
 
